@@ -11,7 +11,7 @@ from .tokdiff import run_tok_job, finish_tok
 from .corpus import CORPUS
 
 PROP = "C08"
-GRAMMARS = ["c1", "c2", "c3", "c5", "c7", "c8"]
+GRAMMARS = ["c1", "c2", "c3", "c5", "c7", "c8", "cr"]
 
 
 class Oracle(C01.Oracle):
